@@ -133,6 +133,16 @@ def oracle(case, out):
     errs = [list(map(int, e.split(":"))) for e in epart.split(";")] if epart else []
     covered = [False] * len(text)
     prev_end = 0
+    # (line, column) of every offset, computed once per text (true_pos alone is linear per call)
+    posn, line_, col_ = [], 0, 0
+    for c_ in text:
+        posn.append((line_, col_))
+        if c_ == 10:
+            line_ += 1; col_ = 0
+        else:
+            col_ += 1
+    posn.append((line_, col_))
+    true_pos = lambda _t, off: posn[off]
     for t in toks:
         ty, raw, sl, sc = int(t[0]), int(t[1]), int(t[2]), int(t[3])
         el, ec = int(t[4]), int(t[5])
